@@ -13,7 +13,7 @@
    A segment (count, cap, r, s) says (r, s shifted as [shift] describes): for the next [count] offsets the slice returned by io.ReadAll
    has capacity [cap] (measured by the driver with the same io.ReadAll on a reader of that length),
    ReadAll gave r and StreamAll gave s. *)
-From DV Require Import Base.Prelude Base.Int Model.FileLog.
+From DV Require Import Base.Prelude Base.Int Model.FileLog Model.Persist Gen.Consts.
 Local Open Scope N_scope.
 
 Inductive obs :=
@@ -47,12 +47,26 @@ Definition lres_eqb (a b : lres) : bool :=
   | _, _ => false
   end.
 
+(* snapshots: repos by root version: (root version, nodes (version, (parents, children, locked,
+   branch)), data (name, instance id)); then the values read back for the workload's key probes *)
+Definition snap_node : Type := N * (list N * list N * bool * N).
+Definition snap_repo : Type := N * list snap_node * list (N * N).
+Definition snap : Type := option (list snap_repo * list N).
+
 Inductive c04case :=
 (* records, first offset, segments; [after] = records appended by a re-opened engine after the cut
    (empty for plain truncation cases) *)
 | CLog (rs : list logmsg) (from : nat) (after : list logmsg) (segs : list (nat * nat * obs * obs))
 (* the file fileLogs.Append wrote for these records, literally *)
-| CEnc (rs : list logmsg) (file : bytes).
+| CEnc (rs : list logmsg) (file : bytes)
+(* a workload run in a child server: operations (None = a data-store request without metadata
+   writes), the metadata write trace (key classes) of the uncrashed run, cumulative metadata / data
+   write counts after start-up and after each operation, the snapshot after start-up and after each
+   operation, and the crash points: (metadata?, writes of that class persisted, index of the
+   interrupted operation (0 = start-up), second crash after the k-th write of recovery (0 = none),
+   snapshot taken by the next process (None = it did not start)) *)
+| CCrash (ops : list (option pop)) (trace : list N) (cum_meta cum_data : list nat)
+         (refs : list snap) (pts : list (bool * nat * nat * nat * snap)).
 
 (* within a segment a padded record grows by one payload byte per offset: the i-th offset of a
    segment that starts with OD k m z observed OD k (m+i) (z-i) *)
@@ -127,6 +141,109 @@ Fixpoint all_ok (rs after : list logmsg) (n : nat) (l : list (nat * obs * obs)) 
   | x :: r => ok_at rs after n x && all_ok rs after (S n) r
   end.
 
+(* ---- crash cases ---- *)
+Definition conf : pconf := {| c_mut_start := n_md_InitialMutationID; c_stride := n_md_StrideMutationID; c_inst_start := 0 |}.
+
+Definition canon_repo (r : prepo) : snap_repo :=
+  (pr_rootv r,
+   map (fun vn => (fst vn, (pn_parents (snd vn), pn_children (snd vn), pn_locked (snd vn), pn_branch (snd vn)))) (pr_nodes r),
+   pr_data r).
+Definition canon (m : pmgr) : list snap_repo := map (fun ib => canon_repo (snd ib)) (pobserve m).
+
+Definition node_eqb (a b : snap_node) : bool :=
+  let '(v, (p, c, l, br)) := a in let '(v', (p', c', l', br')) := b in
+  (v =? v') && list_eqb N.eqb p p' && list_eqb N.eqb c c' && Bool.eqb l l' && (br =? br').
+Definition nn_eqb (a b : N * N) : bool := (fst a =? fst b) && (snd a =? snd b).
+Definition srepo_eqb (a b : snap_repo) : bool :=
+  let '(rv, ns, d) := a in let '(rv', ns', d') := b in
+  (rv =? rv') && list_eqb node_eqb ns ns' && list_eqb nn_eqb d d'.
+Definition repos_eqb := list_eqb srepo_eqb.
+Definition snap_eqb (a b : snap) : bool :=
+  match a, b with
+  | Some (r, k), Some (r', k') => repos_eqb r r' && list_eqb N.eqb k k'
+  | None, None => true
+  | _, _ => false
+  end.
+Definition snap_repos_are (s : snap) (r : list snap_repo) : bool :=
+  match s with Some (r', _) => repos_eqb r r' | None => false end.
+
+(* model run: states after start-up and after each operation, and each operation's writes *)
+Fixpoint mrun (m : pmgr) (ops : list (option pop)) : list pmgr * list (list pwrite) :=
+  match ops with
+  | [] => ([], [])
+  | o :: r =>
+    let '(m1, ws) := match o with Some op => pstep conf m op | None => (m, []) end in
+    let '(ms, wss) := mrun m1 r in (m1 :: ms, ws :: wss)
+  end.
+
+Fixpoint cumul (acc : nat) (wss : list (list pwrite)) : list nat :=
+  match wss with
+  | [] => []
+  | ws :: r => (acc + length ws)%nat :: cumul (acc + length ws) r
+  end.
+
+Definition recover_snap (img : image) (k : nat) : option (list snap_repo) :=
+  match recover conf img with
+  | Ok (m, wr) =>
+    match k with
+    | O => Some (canon m)
+    | _ => match recover conf (apply_ws img (firstn k wr)) with
+           | Ok (m2, _) => Some (canon m2)
+           | _ => None
+           end
+    end
+  | _ => None
+  end.
+
+Definition crash_model_ok (ops : list (option pop)) (trace : list N) (cum_meta : list nat)
+           (refs : list snap) (pts : list (bool * nat * nat * nat * snap)) : bool :=
+  let m0 := init_mgr conf in
+  let '(ms, wss) := mrun m0 ops in
+  let W := init_writes conf ++ concat wss in
+  list_eqb N.eqb (map wkind W) trace
+  && list_eqb Nat.eqb cum_meta (length (init_writes conf) :: cumul (length (init_writes conf)) wss)
+  && Nat.eqb (length refs) (S (length ops))
+  && forallb (fun mr => snap_repos_are (snd mr) (canon (fst mr))) (combine (m0 :: ms) refs)
+  && forallb (fun pt : bool * nat * nat * nat * snap =>
+       let '(is_meta, eff, j, k, s) := pt in
+       if is_meta then
+         match recover_snap (apply_ws empty_image (firstn eff W)) k, s with
+         | Some r, Some (r', _) => repos_eqb r r'
+         | None, None => true
+         | _, _ => false
+         end
+       else
+         (* a data-store write: the metadata is that of the state before the operation, or (the
+            instance / repo deletions run their key deletion concurrently with the blob write) after *)
+         match nth_error (m0 :: ms) (j - 1), nth_error (m0 :: ms) j, s with
+         | Some m, Some m', Some (r', _) => repos_eqb (canon m) r' || repos_eqb (canon m') r'
+         | Some m, None, Some (r', _) => repos_eqb (canon m) r'
+         | _, _, _ => false
+         end) pts.
+
+(* the property on what the implementation showed: the next process starts, and shows the
+   snapshot taken before or after the interrupted operation (4: did not start; 5: neither; 6: neither,
+   at a key-value deletion of an instance delete) *)
+Definition crash_class (ops : list (option pop)) (refs : list snap) (pts : list (bool * nat * nat * nat * snap)) : nat :=
+  fold_left (fun (acc : nat) (pt : bool * nat * nat * nat * snap) =>
+    if negb (Nat.eqb acc 0) then acc else
+    let '(is_meta, _, j, _, s) := pt in
+    match s with
+    | None => 4%nat
+    | Some _ =>
+      let before := nth_error refs (j - 1) in
+      let after := nth_error refs j in
+      let is := fun (r : option snap) => match r with Some x => snap_eqb s x | None => false end in
+      if is before || is after then 0%nat
+      else
+        (* known finding C04-deletedata-not-atomic: process death between the deletion of an
+           instance's key-values and the save of the repo without it *)
+        match is_meta, nth_error ops (j - 1) with
+        | false, Some (Some (PDeleteData _ _)) => 6%nat
+        | _, _ => 5%nat
+        end
+    end) pts 0%nat.
+
 Definition spec_class (c : c04case) : nat :=
   match c with
   | CLog rs from after segs =>
@@ -134,12 +251,14 @@ Definition spec_class (c : c04case) : nat :=
     if Nat.ltb (length (encode rs) + 1) (from + length l) then 9%nat
     else first_class rs after from l
   | CEnc _ _ => 0%nat
+  | CCrash ops trace cm cd refs pts => crash_class ops refs pts
   end.
 
 Definition model_ok (c : c04case) : bool :=
   match c with
   | CLog rs from after segs => all_ok rs after from (unroll segs)
   | CEnc rs file => bytes_eqb (encode rs) file
+  | CCrash ops trace cm cd refs pts => crash_model_ok ops trace cm refs pts
   end.
 
 Fixpoint classify_from (i : nat) (l : list c04case) : list (nat * nat) :=
